@@ -199,6 +199,21 @@ SCENARIOS = [
      [(DQ, "upper_pow_two", "n |= n >> 16;", "n |= n >> 64;")], {"upper_pow_two_agrees", "deque_new_conf_agrees"}),
     ("D23 deque expand_capacity: `capacity << 1` -> `~capacity` (bitwise complement)",
      [(DQ, "expand_capacity", "deque->capacity << 1", "~deque->capacity")], {"deque_expand_agrees"}),
+    ("D24 deque add_at: the back-half contiguous shift moves one slot too few",
+     [(DQ, "cc_deque_add_at", "(deque->size - index) * sizeof(void*)", "(deque->size - index - 1) * sizeof(void*)")],
+     {"deque_add_at_tail"}),
+    ("D25 deque add_at: the D3 branch repaired (`p < f || f == 0` -> `p < f`): the model transcribes the unrepaired text",
+     [(DQ, "cc_deque_add_at", "if (p < f || f == 0) {", "if (p < f) {")], {"deque_add_at_tail"}),
+    ("D26 deque add_at: range guard `>=` -> `>`",
+     [(DQ, "cc_deque_add_at", "index >= deque->size", "index > deque->size")], {"deque_add_at_agrees"}),
+    ("D27 deque remove_at: front-half wrap case keeps the old slot 0 (`buffer[0] = e` dropped)",
+     [(DQ, "cc_deque_remove_at", "deque->buffer[0] = e;", "")], {"deque_remove_at_agrees"}),
+    ("D28 deque remove_at: `l > 1` -> `l > 0` in the back-half wrap case",
+     [(DQ, "cc_deque_remove_at", "if (l > 1) {", "if (l > 0) {")], {"deque_remove_at_agrees"}),
+    ("D29 deque remove_at: memmove -> memcpy on overlapping ranges",
+     [(DQ, "cc_deque_remove_at", "memmove(&(deque->buffer[f + 1]),\n                    &(deque->buffer[f]),\n                    index * sizeof(void*));",
+       "memcpy(&(deque->buffer[f + 1]),\n                    &(deque->buffer[f]),\n                    index * sizeof(void*));")],
+     {"deque_remove_at_agrees"}),
     ("DT1 deque get_at: `& (capacity - 1)` -> `% capacity` (the same value on a power-of-two capacity)",
      [(DQ, "cc_deque_get_at", "(deque->first + index) & (deque->capacity - 1)", "(deque->first + index) % deque->capacity")],
      "tie"),
